@@ -159,3 +159,39 @@ Lemma columns_sweep :
   nth 4 (mgrid (column_drawing csample)) [] = [9566; 9552; 9552; 9552; 9572; 9552; 9552; 9552; 9578; 9552; 9552; 9552; 9580; 9552; 9552; 9552; 9552; 9578; 9552; 9552; 9552; 9552; 9569]%N /\
   nth 8 (mgrid (column_drawing csample)) [] = [9566; 9552; 9552; 9552; 9575; 9552; 9552; 9552; 9575; 9552; 9552; 9552; 9580; 9552; 9552; 9552; 9552; 9578; 9552; 9552; 9552; 9552; 9569]%N.
 Proof. vm_compute. repeat split. Qed.
+
+(* ---------------- the information item name box (coq/C19/CanvasBoxDraw.v) on hsample: right edge in the middle of a grid column (the piece
+   of border below it becomes ┴) and on a separator (┬ becomes ┼); on csample: on the right corner (┐ becomes ┤)
+    ┌──────┐                          ┌────────┐
+    │ dec  │                          │Order   │
+    ├───┬──┴─┬────╥─────────╥─────┐   ├───┬────┼────╥─────────╥─────┐
+    │ U │Aa  │Ab  ║LB       ║Ca   │   │ U │Aa  │Ab  ║LB       ║Ca   │  ... *)
+From DV Require Import C19.CanvasBoxDraw.
+Definition box_mid : ibox := {| ib_name := [[32; 100; 101; 99; 32; 32]%N]; ib_x := 7 |}.
+Definition box_sep : ibox := {| ib_name := [[79; 114; 100; 101; 114; 32; 32; 32]%N; [32; 32; 32; 32; 32; 32; 32; 32]%N]; ib_x := 9 |}.
+Definition box_corner : ibox := {| ib_name := [repeat 120%N 21]; ib_x := 22 |}.
+
+Definition bplane_ok (d : mdraw) (b : ibox) : bool :=
+  wf_mdraw d && wf_ibox d b && outcome_eqb (canvas_cplane (drawb d b)) (Ok (Some (bname b), bplane d b)).
+Definition btable_ok (s : htable) (d : mdraw) (b : ibox) (o : orient) : bool :=
+  match canvas_to_plane code (drawb d b) with
+  | Some p =>
+      match recognize_plane (php s) (pnum s) p with
+      | Some (o', hp, n, f) => (match o, o' with AsRow, AsRow | AsColumn, AsColumn => true | _, _ => false end) &&
+                               (hp =? 1)%N && (n =? length (ht_rules s)) && fields_eqb f (fields_of (abs_htable s code))
+      | None => false
+      end
+  | None => false
+  end.
+
+Lemma box_sweep :
+  bplane_ok (header_drawing hsample) box_mid = true /\ btable_ok hsample (header_drawing hsample) box_mid AsRow = true /\
+  bplane_ok (header_drawing hsample) box_sep = true /\ btable_ok hsample (header_drawing hsample) box_sep AsRow = true /\
+  bplane_ok (column_drawing csample) box_corner = true /\ btable_ok csample (column_drawing csample) box_corner AsColumn = true /\
+  bname box_sep = [79; 114; 100; 101; 114; 32; 32; 32; 10; 32; 32; 32; 32; 32; 32; 32; 32]%N /\
+  nth 2 (box_lines box_mid ++ table_lines (header_drawing hsample) box_mid) [] =
+    [9500; 9472; 9472; 9472; 9516; 9472; 9472; 9524; 9472; 9516; 9472; 9472; 9472; 9472; 9573; 9472; 9472; 9472; 9472; 9472; 9472; 9472; 9472; 9472; 9573; 9472; 9472; 9472; 9472; 9472; 9488]%N /\
+  nth 3 (box_lines box_sep ++ table_lines (header_drawing hsample) box_sep) [] =
+    [9500; 9472; 9472; 9472; 9516; 9472; 9472; 9472; 9472; 9532; 9472; 9472; 9472; 9472; 9573; 9472; 9472; 9472; 9472; 9472; 9472; 9472; 9472; 9472; 9573; 9472; 9472; 9472; 9472; 9472; 9488]%N /\
+  last (nth 2 (box_lines box_corner ++ table_lines (column_drawing csample) box_corner) []) 0%N = 9508%N.
+Proof. vm_compute. repeat split. Qed.
